@@ -5,6 +5,8 @@ use serde_json::{json, Value};
 use std::collections::BTreeMap;
 
 pub mod c02;
+pub mod c03;
+pub mod c09;
 pub mod util;
 
 #[derive(Clone, Copy, PartialEq, Debug)]
@@ -69,7 +71,7 @@ pub trait Scenario: Sync {
 }
 
 pub fn registry() -> Vec<&'static dyn Scenario> {
-    vec![&c02::C02]
+    vec![&c02::C02, &c03::C03, &c09::C09]
 }
 pub fn lookup(id: &str) -> Option<&'static dyn Scenario> {
     registry().into_iter().find(|s| s.id().eq_ignore_ascii_case(id))
